@@ -172,4 +172,325 @@ theorem subst_elem {s v p} {kw : Nat} {e : Shape} {es : List (List Nat × Val)}
   rw [subst_append p [.elem i] s v _ _ w hres]
   simp [subst, resolve1, hx, subst1]
 
+
+/-! ## The owned `BTreeMap` at the position the binary search finds -/
+
+theorem insKV_prefix {α : Type} (k : List Nat) (x : α) (a b : List (List Nat × α))
+    (h : ∀ y ∈ a, rdLE y.1 < rdLE k) : insKV k x (a ++ b) = a ++ insKV k x b := by
+  induction a with
+  | nil => rfl
+  | cons y r ih =>
+    have hy := h y List.mem_cons_self
+    have h1 : ¬ rdLE k < rdLE y.1 := by omega
+    have h2 : rdLE k ≠ rdLE y.1 := by omega
+    simp only [List.cons_append, insKV, h1, h2, if_false]
+    rw [ih (fun z hz => h z (List.mem_cons_of_mem _ hz))]
+
+theorem insKV_new {α : Type} (k : List Nat) (x : α) (l : List (List Nat × α)) (j : Nat)
+    (hb : ∀ y ∈ l.take j, rdLE y.1 < rdLE k) (ha : ∀ y ∈ l.drop j, rdLE k < rdLE y.1) :
+    insKV k x l = Spec.insertAt l j [(k, x)] := by
+  conv => lhs; rw [← List.take_append_drop j l]
+  rw [insKV_prefix k x _ _ hb]
+  simp only [Spec.insertAt]
+  cases hd : l.drop j with
+  | nil => simp [insKV]
+  | cons y r =>
+    have := ha y (by rw [hd]; exact List.mem_cons_self)
+    simp [insKV, this]
+
+theorem insKV_replace {α : Type} (k : List Nat) (x : α) (l : List (List Nat × α)) (j : Nat) (hj : j < l.length)
+    (hk : rdLE l[j].1 = rdLE k) (hb : ∀ y ∈ l.take j, rdLE y.1 < rdLE k) :
+    insKV k x l = l.set j (k, x) := by
+  have hl : l = l.take j ++ l[j] :: l.drop (j + 1) := by
+    rw [← List.drop_eq_getElem_cons hj, List.take_append_drop]
+  conv => lhs; rw [hl]
+  rw [insKV_prefix k x _ _ hb]
+  have h1 : ¬ rdLE k < rdLE l[j].1 := by omega
+  simp only [insKV, h1, hk, if_false, if_true]
+  rw [List.set_eq_take_append_cons_drop]; simp [hj]
+
+theorem hasUKey_at {α : Type} (k : Nat) (l : List (List Nat × α)) (j : Nat) (hj : j < l.length)
+    (hk : rdLE l[j].1 = k) : Spec.hasUKey k l = true := by
+  simp only [Spec.hasUKey, List.any_eq_true, beq_iff_eq]
+  exact ⟨l[j], List.getElem_mem _, hk⟩
+
+theorem insKV_self_mem {α : Type} (k : List Nat) (x : α) (l : List (List Nat × α)) : (k, x) ∈ insKV k x l := by
+  induction l with
+  | nil => simp [insKV]
+  | cons y r ih =>
+    simp only [insKV]
+    split
+    · simp
+    · split
+      · simp
+      · simp [ih]
+
+/-! ## Well-formedness of map values -/
+
+theorem unode_umap_of (kw : Nat) (e : Shape) (es : List (List Nat × Val)) (hk : ∀ kv ∈ es, kv.1.length = kw) :
+    UNode (.umap kw e) (.umap es) kw (es.map (·.1)) (es.map fun kv => encode e kv.2) :=
+  ⟨encode_umap_uBytes kw e es, by simp, by
+    intro k hk'; obtain ⟨kv, hkv, rfl⟩ := List.mem_map.1 hk'; exact hk kv hkv⟩
+
+theorem good_umap_of {kw : Nat} {e : Shape} {es : List (List Nat × Val)} (hok : OkS (.umap kw e))
+    (hall : ∀ kv ∈ es, kv.1.length = kw ∧ BytesWF kv.1 ∧ valid e kv.2 = true ∧ fits e kv.2 = true)
+    (hs : strictKeys (es.map fun kv => rdLE kv.1) = true)
+    (hsz : (encode (.umap kw e) (.umap es)).length < Shape.u32Lim) : Good (.umap kw e) (.umap es) := by
+  have hva : es.all (fun kv => valid e kv.2) = true := List.all_eq_true.2 fun kv hkv => (hall kv hkv).2.2.1
+  rw [(unode_umap_of kw e es fun kv hkv => (hall kv hkv).1).size, map_encode_length_kv e es hva] at hsz
+  have hLle : es.length ≤ es.length * (4 + kw) := Nat.le_mul_of_pos_right _ (by omega)
+  simp only [List.length_map] at hsz
+  refine ⟨hok, ?_, ?_⟩
+  · simp only [valid, Bool.and_eq_true, List.all_eq_true, beq_iff_eq, decide_eq_true_eq]
+    exact ⟨fun kv hkv => ⟨⟨(hall kv hkv).1, (hall kv hkv).2.1⟩, (hall kv hkv).2.2.1⟩, hs⟩
+  · simp only [fits, Bool.and_eq_true, decide_eq_true_eq, List.all_eq_true]
+    exact ⟨⟨by omega, by omega⟩, fun kv hkv => (hall kv hkv).2.2.2⟩
+
+/-- The image of every element lies inside the map's serialization. -/
+theorem umap_elem_le (kw : Nat) (e : Shape) (es : List (List Nat × Val)) (kv : List Nat × Val) (h : kv ∈ es) :
+    (encode e kv.2).length ≤ (encode (.umap kw e) (.umap es)).length := by
+  rw [encode_umap_uBytes, uBytes, List.length_append]
+  have : (encode e kv.2).length ≤ (es.map fun kv => encode e kv.2).flatten.length := by
+    obtain ⟨i, hi, rfl⟩ := List.getElem_of_mem h
+    rw [flatten_split (es.map fun kv => encode e kv.2) i (by simpa using hi)]
+    simp only [List.length_append, List.getElem_map]; omega
+  omega
+
+
+/-! ## `UnsizedMap::insert` -/
+
+/-- **`UnsizedMap::insert(k, init)`** with an infallible initialiser: a new key is an `insert_all_with_offsets` of one
+item at the insertion point; an existing key is `set_from_init` on the element one level down. -/
+theorem umap_insert_refines {s v p m} {kw : Nat} {e : Shape} {es : List (List Nat × Val)}
+    (F : Focus s v p (.umap kw e) (.umap es) m) (c : Calm m) (k : List Nat) (hk : k.length = kw)
+    (hkwf : BytesWF k) (init : Init) (hio : initOk e init = true) (hf : initFails e init = false)
+    (hfit : (encode e (denote e init)).length < Shape.u32Lim → fits e (denote e init) = true)
+    (hroom : (plug s v p (encode (.umap kw e) (.umap (insKV k (denote e init) es)))).length ≤ m.orig + maxIncrease) :
+    ∃ m', umapInsert ⟨s, p⟩ kw e (offsetOf s v p) k init m = (m', .ok (.flag (!Spec.hasUKey (rdLE k) es)))
+      ∧ Focus s (subst s v p (.umap (insKV k (denote e init) es))) p (.umap kw e)
+          (.umap (insKV k (denote e init) es)) m'
+      ∧ m'.orig = m.orig ∧ m'.refuse = m.refuse := by
+  have N := unode_umap F.sub
+  obtain ⟨hall, hs⟩ := good_umap_keys F.sub
+  obtain ⟨_, hoke, _⟩ := umap_elem_ok F.sub.ok
+  obtain ⟨hx, hsize, hval⟩ := initP_all e init hio
+  have hvx := hval false false hoke
+  have hsz : (initBytes e init).length = initSize e init := by
+    rw [hx, hsize]; exact encode_size_all e _ hvx
+  have hsm := F.small c _ hroom
+  have hpl := plug_length p s v _ _ F.good F.res (encode (.umap kw e) (.umap (insKV k (denote e init) es)))
+  have hle := offsetOf_le p s v _ _ F.good F.res
+  have hxle := umap_elem_le kw e (insKV k (denote e init) es) (k, denote e init) (insKV_self_mem k _ es)
+  have hfx : fits e (denote e init) = true := hfit (by simp only [] at hxle; omega)
+  have gU' : Good (.umap kw e) (.umap (insKV k (denote e init) es)) := by
+    apply good_umap_of F.sub.ok
+    · intro kv hkv
+      rcases insKV_mem k _ es kv hkv with h | h
+      · subst h; exact ⟨hk, hkwf, hvx, hfx⟩
+      · exact hall kv h
+    · rw [strictKeys, decide_eq_true_eq]
+      exact insKV_pairwise k _ es (by simpa [strictKeys] using hs)
+    · omega
+  have hkeys := umapKeys_enc F c.lt
+  unfold umapInsert
+  simp only []
+  rw [hkeys]
+  rcases search_sorted (fun kv : List Nat × Val => rdLE kv.1) es (rdLE k) 0 hs with
+    ⟨j, hj, hse, hkj, hb, _⟩ | ⟨j, hj, hse, hb, ha⟩
+  · -- existing key: `set_from_init` one level down
+    simp only [Nat.zero_add] at hse
+    rw [hse]
+    simp only []
+    have hxj : es[j]? = some es[j] := List.getElem?_eq_getElem hj
+    obtain ⟨hl1, hwf1, _, _⟩ := hall es[j] (List.getElem_mem _)
+    have hkey : es[j].1 = k := rdLE_inj (by rw [hl1, hk]) hwf1 hkwf hkj
+    have hins : insKV k (denote e init) es = es.set j (k, denote e init) := insKV_replace k _ es j hj hkj hb
+    have hhas : Spec.hasUKey (rdLE k) es = true := hasUKey_at (rdLE k) es j hj hkj
+    obtain ⟨F', hoff⟩ := F.elem c.lt j es[j] hxj
+    have hplug : plug s v (p ++ [.elem j]) (encode e (denote e init))
+        = plug s v p (encode (.umap kw e) (.umap (insKV k (denote e init) es))) := by
+      rw [plug_append p [.elem j] s v _ _ _ F.res]
+      have h1 : resolve1 (.umap kw e) (.umap es) (.elem j) = .ok (e, es[j].2) := by simp [resolve1, hxj]
+      have := step_subst_enc (.umap kw e) (.umap es) (.elem j) e es[j].2 (denote e init) F.sub h1
+      simp only [plug, h1]
+      rw [← this, hins]
+      simp [subst1, hxj, hkey]
+    have gx : Good e (denote e init) := ⟨⟨false, false, hoke⟩, hvx, hfx⟩
+    obtain ⟨m', hm', F'', ho, hr⟩ := setDataInner_refines F' c (denote e init) gx (by rw [hplug]; exact hroom)
+    rw [← hoff, hx, hf, hm']
+    simp only [hhas, Bool.not_true]
+    refine ⟨m', rfl, ?_, ho, hr⟩
+    obtain ⟨gs, he, hrs, _, _⟩ := subst_good p s v _ _ (.umap (insKV k (denote e init) es)) F.good F.res gU' hsm
+    refine ⟨gs, hrs, ?_⟩
+    rw [F''.bytes, subst_elem F.res j es[j] hxj, hkey, ← hins]
+  · -- new key: one item at the insertion point
+    simp only [Nat.zero_add] at hse
+    rw [hse]
+    simp only [Shape.entryW]
+    have hins : insKV k (denote e init) es = Spec.insertAt es j [(k, denote e init)] := insKV_new k _ es j hb ha
+    have hhas : Spec.hasUKey (rdLE k) es = false := any_false_of_split _ es (rdLE k) j hb ha
+    have henc' : encode (.umap kw e) (.umap (insKV k (denote e init) es))
+        = uBytes (Spec.insertAt (es.map (·.1)) j (List.replicate 1 k))
+            (Spec.insertAt (es.map fun kv => encode e kv.2) j (List.replicate 1 (initBytes e init))) := by
+      rw [hins, encode_umap_uBytes, map_insertAt, map_insertAt, hx]; rfl
+    have hlen' := uBytes_insert_length kw _ _ N.len N.kw j 1 k (initBytes e init) hk
+    rw [← henc', ← N.enc, hsz] at hlen'
+    obtain ⟨m1, hm1, hb1, ho1, hr1⟩ := ulistInsert_bytes F c N e j 1 init k (by simpa using hj) hk hsz hf (by omega)
+    rw [← henc'] at hb1
+    rw [hm1]
+    simp only [hhas, Bool.not_false]
+    exact ⟨m1, rfl, F.finish _ gU' m1 hb1 (by rw [hb1]; exact hsm), ho1, hr1⟩
+
+
+/-! ## `remove` / `clear` -/
+
+theorem removeRange_sublist {α : Type} (l : List α) (lo hi : Nat) (h : lo ≤ hi) :
+    (Spec.removeRange l lo hi).Sublist l := by
+  have h1 : (l.drop hi).Sublist (l.drop lo) := by
+    have : l.drop hi = (l.drop lo).drop (hi - lo) := by rw [List.drop_drop]; congr 1; omega
+    rw [this]; exact List.drop_sublist _ _
+  have := List.Sublist.append_left h1 (l.take lo)
+  rwa [List.take_append_drop] at this
+
+/-- A sub-map of a well-formed map value is well formed. -/
+theorem good_umap_sub {kw : Nat} {e : Shape} {es es' : List (List Nat × Val)} (g : Good (.umap kw e) (.umap es))
+    (hsub : es'.Sublist es) (hsz : (encode (.umap kw e) (.umap es')).length < Shape.u32Lim) :
+    Good (.umap kw e) (.umap es') := by
+  obtain ⟨hall, hs⟩ := good_umap_keys g
+  apply good_umap_of g.ok (fun kv hkv => hall kv (hsub.subset hkv)) ?_ hsz
+  rw [strictKeys, decide_eq_true_eq] at hs ⊢
+  exact List.Pairwise.sublist (hsub.map _) hs
+
+/-- `remove_range` on an `UnsizedMap` node (used for `remove(key)` and `clear`). -/
+theorem umap_removeRange_refines {s v p m} {kw : Nat} {e : Shape} {es : List (List Nat × Val)}
+    (F : Focus s v p (.umap kw e) (.umap es) m) (c : Calm m) (lo hi : Nat) (hlo : lo ≤ hi) (hhi : hi ≤ es.length) :
+    ∃ m', ulistRemoveRange ⟨s, p⟩ (Shape.entryW kw) (offsetOf s v p) lo hi m = (m', .ok ())
+      ∧ Focus s (subst s v p (.umap (Spec.removeRange es lo hi))) p (.umap kw e) (.umap (Spec.removeRange es lo hi)) m'
+      ∧ m'.orig = m.orig ∧ m'.refuse = m.refuse := by
+  have N := unode_umap F.sub
+  obtain ⟨m1, hm1, hb1, ho1, hr1, _⟩ := ulistRemoveRange_all_bytes F N c.lt lo hi hlo (by simpa using hhi)
+  have henc' : encode (.umap kw e) (.umap (Spec.removeRange es lo hi))
+      = uBytes (Spec.removeRange (es.map (·.1)) lo hi) (Spec.removeRange (es.map fun kv => encode e kv.2) lo hi) := by
+    rw [encode_umap_uBytes, map_removeRange, map_removeRange]
+  rw [← henc'] at hb1
+  have hlen' := uBytes_remove_length_le kw _ _ N.len N.kw lo hi hlo
+  rw [← henc', ← N.enc] at hlen'
+  have hpl := plug_length p s v _ _ F.good F.res (encode (.umap kw e) (.umap (Spec.removeRange es lo hi)))
+  have hle := offsetOf_le p s v _ _ F.good F.res
+  have hlt := c.lt
+  rw [F.bytes] at hlt
+  have g' := good_umap_sub F.sub (removeRange_sublist es lo hi hlo) (by omega)
+  exact ⟨m1, by simpa only [Shape.entryW] using hm1, F.finish _ g' m1 hb1 (by rw [hb1]; omega), ho1, hr1⟩
+
+theorem umap_rdlen {s v p m} {kw : Nat} {e : Shape} {es : List (List Nat × Val)}
+    (F : Focus s v p (.umap kw e) (.umap es) m) (c : Calm m) :
+    rd32 m.bytes (offsetOf s v p + 4) = es.length := by
+  have := (u_reads F (unode_umap F.sub) c.lt).2.1
+  simpa using this
+
+theorem arr_fits {ee : Fixed} {lw : Nat} {xs : List (List Nat)} (hall : xs.all (validE ee) = true)
+    (hfl : initFails (.list ee lw) (.array xs) = false)
+    (hlt : (encode (.list ee lw) (denote (.list ee lw) (.array xs))).length < Shape.u32Lim) :
+    fits (.list ee lw) (denote (.list ee lw) (.array xs)) = true := by
+  simp only [initFails, decide_eq_false_iff_not] at hfl
+  simp only [denote, fits, Bool.and_eq_true, decide_eq_true_eq]
+  refine ⟨by omega, ?_⟩
+  simp only [denote] at hlt
+  rw [list_enc, List.length_append, leN_length, flatten_width ee.size xs (fun x hx => by
+    have := List.all_eq_true.1 hall x hx; exact validE_len this), Nat.mul_comm] at hlt
+  have := u32_lt_usize
+  omega
+
+/-- **Every op on an `UnsizedMap` node** except `uget` (its `ret` needs the codec's view lemma; `MachineNodeUget`).
+`uminsert_arr` with a failing initialiser is the known finding (`Err.initFail`, nothing claimed). -/
+theorem umap_refines {s v p m} {kw : Nat} {e : Shape} {es : List (List Nat × Val)}
+    (F : Focus s v p (.umap kw e) (.umap es) m) (c : Calm m) (op : Op) (hop : ∀ i, op ≠ .uget i) :
+    Refines s v p (.umap kw e) (.umap es) m op := by
+  have hrd := umap_rdlen F c
+  obtain ⟨_, hoke, _⟩ := umap_elem_ok F.sub.ok
+  obtain ⟨hall, hs⟩ := good_umap_keys F.sub
+  cases op with
+  | touch => exact touch_refines F
+  | replace nv => exact replace_refines F c nv
+  | reset => exact reset_refines F c
+  | uget i => exact absurd rfl (hop i)
+  | uminsert k =>
+    unfold Refines
+    simp only [Spec.applyNode, applyAt]
+    by_cases hg : (k.length == kw && decide (BytesWF k)) = true
+    · simp only [hg, if_true]
+      simp only [Bool.and_eq_true, beq_iff_eq, decide_eq_true_eq] at hg
+      intro hroom
+      exact umap_insert_refines F c k hg.1 hg.2 .default (initOk_default e false hoke) (initFails_default e)
+        (fun _ => fits_default e) hroom
+    · simp [hg]
+  | uminsertArr k xs =>
+    unfold Refines
+    simp only [Spec.applyNode, applyAt]
+    by_cases hg : (k.length == kw && decide (BytesWF k) && arrOk e xs) = true
+    · simp only [hg, if_true]
+      simp only [Bool.and_eq_true, beq_iff_eq, decide_eq_true_eq] at hg
+      by_cases hfl : initFails e (.array xs) = true
+      · simp only [hfl, if_true]
+      · simp only [hfl, Bool.false_eq_true, if_false]
+        have hfl' : initFails e (.array xs) = false := by simpa using hfl
+        have ha := hg.2
+        cases e with
+        | list ee lw =>
+          simp only [arrOk, Bool.and_eq_true] at ha
+          have hio : initOk (.list ee lw) (.array xs) = true := by
+            simpa [initOk, validE] using ha.2
+          intro hroom
+          exact umap_insert_refines F c k hg.1.1 hg.1.2 (.array xs) hio hfl' (arr_fits ha.2 hfl') hroom
+        | _ => simp only [arrOk, Bool.false_eq_true] at ha
+    · simp [hg]
+  | umremove k =>
+    unfold Refines
+    simp only [Spec.applyNode, applyAt]
+    by_cases hg : (k.length == kw && decide (BytesWF k)) = true
+    · simp only [hg, if_true]
+      intro hroom
+      rw [umapKeys_enc F c.lt]
+      rcases search_sorted (fun kv : List Nat × Val => rdLE kv.1) es (rdLE k) 0 hs with
+        ⟨j, hj, hse, hkj, hb, ha⟩ | ⟨j, hj, hse, hb, ha⟩
+      · simp only [Nat.zero_add] at hse
+        rw [hse]
+        simp only []
+        have hdel : Spec.delUKey (rdLE k) es = Spec.removeRange es j (j + 1) :=
+          filter_ne_of_split _ es (rdLE k) j hj hkj hb ha
+        have hhas : Spec.hasUKey (rdLE k) es = true := hasUKey_at (rdLE k) es j hj hkj
+        obtain ⟨m', hm', F', ho, hr⟩ := umap_removeRange_refines F c j (j + 1) (by omega) (by omega)
+        rw [hm', hhas, hdel]
+        exact ⟨m', rfl, F', ho, hr⟩
+      · simp only [Nat.zero_add] at hse
+        rw [hse]
+        simp only []
+        have hhas : Spec.hasUKey (rdLE k) es = false := any_false_of_split _ es (rdLE k) j hb ha
+        have hdel : Spec.delUKey (rdLE k) es = es := by
+          unfold Spec.delUKey
+          apply List.filter_eq_self.2
+          intro y hy
+          have : ¬ rdLE y.1 = rdLE k := by
+            intro heq
+            have : (es.any fun y => rdLE y.1 == rdLE k) = true :=
+              List.any_eq_true.2 ⟨y, hy, by simpa using heq⟩
+            rw [Spec.hasUKey] at hhas; rw [hhas] at this; cases this
+          simpa using this
+        rw [hhas, hdel]
+        exact ⟨m, rfl, F.same, rfl, rfl⟩
+    · simp [hg]
+  | clear =>
+    unfold Refines
+    simp only [Spec.applyNode, applyAt, hrd]
+    intro _
+    obtain ⟨m', hm', F', ho, hr⟩ := umap_removeRange_refines F c 0 es.length (by omega) (Nat.le_refl _)
+    rw [removeRange_all es] at F'
+    exact ⟨m', by rw [hm', unitRes_ok], F', ho, hr⟩
+  | utouch i =>
+    unfold Refines
+    simp only [Spec.applyNode, applyAt, hrd]
+    intro _
+    exact ⟨m, rfl, F.same, rfl, rfl⟩
+  | _ => unfold Refines; simp [Spec.applyNode, applyAt]
+
 end Unsized.Machine
